@@ -231,7 +231,7 @@ pub fn run(ctx: &mut Ctx) {
     let deep = ctx.tier.thorough();
     let thorough = true;
     let cases = crate::gram::generate(if deep { 3 } else { 2 });
-    ctx.rule = "(a) every C01 program in canonical spelling, every base document x every trivia menu member at every gap at once and at each single gap (all members), OSCAT description headers with 1-4 byte characters, texts with an invalid character; (b) every C01 program that parses: identifier occurrences vs Id spans; (c) every single-token deletion / duplication / neighbour swap of every base document and every C01 program (thorough: of every 20th of the larger program set) : labels of all diagnostics; distinct = distinct source text".into();
+    ctx.rule = "(a) every C01 program in canonical spelling, every base document x every trivia menu member at every gap at once and at each single gap (all members), OSCAT description headers with 1-4 byte characters, texts with an invalid character; (b) every C01 program that parses: identifier occurrences vs Id spans; (c) every single-token deletion / duplication / neighbour swap of every base document and every C01 program (thorough: of every 20th of the larger program set) : labels of all diagnostics; (d) every single-fault world of C02 (deviation bound 1) in five spellings (one line per declaration, one lexeme per line with LF and CRLF, a non-ASCII comment before every lexeme, two documents) opened in the real server: every published range must be the label's line / UTF-16 column; distinct = distinct source text".into();
     ctx.assumptions.push("line = number of LF before the span start; column accepted in bytes, chars or UTF-16 units as long as one unit fits every token of the document".into());
     ctx.assumptions.push("inside a blanked OSCAT header token text may be blanks instead of the original characters, but must have the same byte length".into());
 
@@ -410,6 +410,8 @@ pub fn run(ctx: &mut Ctx) {
 
     // (c) for planted semantic faults is performed by the C02 world check's label oracle and reported there under C05 keys
     crate::checks::c02::label_oracle_into(ctx);
+    // (d) the same faults through the language server: the published range must be the position of the label
+    crate::checks::c02::lsp_range_oracle_into(ctx);
 }
 
 pub fn replay(case: &Value) -> Result<String, String> {
@@ -444,6 +446,7 @@ pub fn replay(case: &Value) -> Result<String, String> {
             }
         }
         Some("world-label") => crate::checks::c02::replay_label(case),
+        Some("lsp-range") => crate::checks::c02::replay_lsp_range(case),
         _ => Err("unknown replay mode".into()),
     }
 }
